@@ -52,6 +52,8 @@ type c20Guard struct {
 	nCanary                   int
 	hashes                    map[string]c20Hashed
 	nSnap, nHashed            int
+	canaryBody                map[string][]byte // relative path -> content, for repairs
+	pristine                  map[string]string // relative path -> type/size/hash/link of the freshly built guard
 }
 
 var c20Old = time.Date(2001, 2, 3, 4, 5, 6, 0, time.UTC)
@@ -68,7 +70,7 @@ func c20CanaryBody(rel string, size int) []byte {
 }
 
 func c20NewGuard(scratch string, depth int) (*c20Guard, error) {
-	g := &c20Guard{root: filepath.Join(scratch, "guard"), depth: depth, canarySizes: map[int64]string{}}
+	g := &c20Guard{root: filepath.Join(scratch, "guard"), depth: depth, canarySizes: map[int64]string{}, canaryBody: map[string][]byte{}}
 	if err := os.RemoveAll(g.root); err != nil {
 		return nil, err
 	}
@@ -84,7 +86,9 @@ func c20NewGuard(scratch string, depth int) (*c20Guard, error) {
 		rel, _ := filepath.Rel(g.root, p)
 		size := 1201 + 2*g.nCanary
 		g.nCanary++
-		if err := os.WriteFile(p, c20CanaryBody(rel, size), 0o644); err != nil {
+		body := c20CanaryBody(rel, size)
+		g.canaryBody[rel] = body
+		if err := os.WriteFile(p, body, 0o644); err != nil {
 			return err
 		}
 		g.canarySizes[int64(size)] = rel
@@ -131,7 +135,12 @@ func c20NewGuard(scratch string, depth int) (*c20Guard, error) {
 		}
 		return nil
 	})
-	g.topNames = []string{c20SegPlain, c20SegSpace, c20SegLong, c20SegFile, c20SegDir, "c20", "c20l", "c20thru", "c20in", "blobs", "in.txt"}
+	m, err := g.snapOutside(true)
+	if err != nil {
+		return nil, err
+	}
+	g.pristine = c20Shape(m)
+	g.topNames = []string{c20SegPlain, c20SegSpace, c20SegLong, c20SegFile, c20SegDir, "c20", "c20l", c20ThruName, c20InName, "blobs", "in.txt"}
 	return g, nil
 }
 
@@ -273,6 +282,85 @@ func c20DiffSnap(a, b map[string]c20Ent) []string {
 	}
 	sort.Strings(d)
 	return d
+}
+
+// c20Shape reduces a listing to what defines the guard (no times): used to check a repaired guard.
+func c20Shape(m map[string]c20Ent) map[string]string {
+	r := make(map[string]string, len(m))
+	for k, e := range m {
+		r[k] = fmt.Sprintf("%o %d %d %q %s", e.Mode, e.Size, e.Nlink, e.Link, e.Hash)
+	}
+	return r
+}
+
+// repair undoes the changes a violating case made outside the designated directory without rebuilding
+// the whole guard; it reports false when the result does not have the shape of a fresh guard.
+func (g *c20Guard) repair(before, after map[string]c20Ent) bool {
+	var created []string
+	for k := range after {
+		if _, ok := before[k]; !ok {
+			created = append(created, k)
+		}
+	}
+	sort.Strings(created)
+	for _, k := range created {
+		_ = c20ForceRemove(filepath.Join(g.root, k)) // parents sort first; children vanish with them
+	}
+	var damaged []string
+	for k, vb := range before {
+		if va, ok := after[k]; !ok || va != vb {
+			damaged = append(damaged, k)
+		}
+	}
+	sort.Strings(damaged)
+	for _, k := range damaged {
+		p := filepath.Join(g.root, k)
+		e := before[k]
+		mode := os.FileMode(e.Mode)
+		switch {
+		case k == ".":
+		case mode&os.ModeSymlink != 0:
+			_ = c20ForceRemove(p)
+			_ = os.Symlink(e.Link, p)
+		case mode.IsDir():
+			if fi, err := os.Lstat(p); err != nil || !fi.IsDir() {
+				_ = c20ForceRemove(p)
+				_ = os.MkdirAll(p, 0o755)
+			}
+			_ = os.Chmod(p, mode.Perm())
+		default:
+			body, ok := g.canaryBody[k]
+			if !ok {
+				return false
+			}
+			_ = c20ForceRemove(p)
+			if err := os.WriteFile(p, body, 0o644); err != nil {
+				return false
+			}
+			_ = os.Chtimes(p, c20Old, c20Old)
+		}
+	}
+	// directories whose entries were touched got a new mtime: age them again (deepest first)
+	for i := len(damaged) - 1; i >= 0; i-- {
+		k := damaged[i]
+		if os.FileMode(before[k].Mode).IsDir() && filepath.Join(g.root, k) != g.tmp {
+			_ = os.Chtimes(filepath.Join(g.root, k), c20Old, c20Old)
+		}
+	}
+	m, err := g.snapOutside(true)
+	if err != nil {
+		return false
+	}
+	sh := c20Shape(m)
+	if len(sh) != len(g.pristine) {
+		return false
+	}
+	for k, v := range g.pristine {
+		if sh[k] != v {
+			return false
+		}
+	}
+	return true
 }
 
 type c20In struct{ Rel, Desc string }
